@@ -150,7 +150,6 @@ Section Pieces.
       | DictOf kk =>
         match raw with
         | JObj members => do l' <- mapM (dict_entry kk (f_kind fl)) members; Ok (MDict l')
-        | JStr [] | JArr [] => Ok (MDict [])
         | _ => reject
         end
       end
